@@ -1,11 +1,12 @@
 #!/bin/sh
 # Builds the framework from files on disk only (offline).
-set -e
-cd "$(dirname "$0")"
+cd "$(dirname "$0")" || exit 2
 export CARGO_NET_OFFLINE=true
-(cd harness && cargo build --offline --release --quiet && cargo build --offline --profile dbg --quiet)
-for m in spec/*.tla; do
-  java -cp /opt/veriftools/tla/tla2tools.jar:/opt/veriftools/tla/CommunityModules-deps.jar tla2sany.SANY "$m" > /tmp/sany.$$ 2>&1 || { cat /tmp/sany.$$; rm -f /tmp/sany.$$; exit 1; }
+LOG=$(mktemp)
+(cd harness && cargo build --offline --release --quiet && cargo build --offline --profile dbg --quiet) > "$LOG" 2>&1 || { cat "$LOG"; rm -f "$LOG"; echo "harness build failed"; exit 1; }
+cd spec || exit 2
+for m in *.tla; do
+  java -cp /opt/veriftools/tla/tla2tools.jar:/opt/veriftools/tla/CommunityModules-deps.jar tla2sany.SANY "$m" > "$LOG" 2>&1 || { cat "$LOG"; rm -f "$LOG"; echo "SANY failed on $m"; exit 1; }
 done
-rm -f /tmp/sany.$$
+rm -f "$LOG"
 echo setup ok
